@@ -52,6 +52,7 @@ TABLE = {
  "@service registers under its global context's name": ("C12", "new subsystem: a file's @service('test.f1') function redefined from inside a running service function of the same file (global fsvc; @service('test.f1') def fsvc ...): the new declaration was rejected ('already defined in file.a') and test.f1 no longer existed"),
  "a relative import from a module inside a package names the imported context after the package": ("C11", "modules/m2/__init__.py and modules/m2/sib.py both doing 'from . import other': other.py was loaded twice (contexts modules.m2.other and modules.m2.sib.other); m2.set_other('x') was not seen through sib.via_other()"),
  "the body of a class defined in a function can read that function's variables": ("C03", "def outer(k): loc = 5; class C: got = (k, loc) -> NameError: name 'k' is not defined (class body statements could not see the enclosing function's parameters and locals; methods could)"),
+ "a global declaration in any enclosing function is honoured by nested functions": ("C03", "x = 'M'; def f(): def g(): global x; x = 'G2'; def h(): def k(): return x ... ; x = 'A1' in f: k (two levels below the global declaration) raised NameError / saw f's local instead of the global x (C03 thorough, scope depth 4)"),
 }
 log = subprocess.run(["git", "-C", "/repo", "log", "--reverse", "--format=%h %s"], capture_output=True, text=True).stdout.strip().split("\n")
 fixed = []
